@@ -302,6 +302,12 @@ def _mutate_here(v, rng):
         return list(v)
     if isinstance(v, str) and c < 0.35:
         return rng.choice(ADVERSARIAL_STR)
+    if isinstance(v, str) and v and c < 0.6:
+        # near-misses a lenient lookup would let through: other letter case, padding
+        alt = [v.swapcase(), v.upper(), v.lower(), ' ' + v, v + ' ', v + '\n']
+        alt = [a for a in alt if a != v]
+        if alt:
+            return rng.choice(alt)
     if isinstance(v, bool) and c < 0.3:
         return int(v)
     if type(v) is int and c < 0.25:
